@@ -238,6 +238,12 @@ def sequences(ctx, main, defs, samples, calls):
             seqs.append(('overflow', tuple([a] + f + [z, a, z, f[-1], f[0]])))          # `first` is the oldest entry
             seqs.append(('overflow', tuple(f + [a, z, a, z, f[-1], f[0]])))            # `first` is the newest entry
             seqs.append(('overflow', tuple(f[:10] + [a] + f[10:] + [z, a, f[0], z, a]))) # ... and in the middle
+    # 6. the flag given as 0 / 1 (what a caller's `int(...)` or a count hands over) instead of False / True: the same answers.
+    #    (1 == True and 0 == False also as dictionary keys, so the baselines and the model line of the bool flag apply.)
+    sv_keys = sorted(k for k in by_key if k[0] == 'sv')
+    for k in (bad[:6] + good[:3] + sv_keys[:6]):
+        for fl in ((0, 1), (1, 0, 1), (False, 1), (0, True), (1,), (0, 0, 1)):
+            seqs.append(('flag-forms', tuple(k + (ef,) for ef in fl)))
     return seqs
 
 
@@ -399,7 +405,7 @@ def run(ctx):
                  replay_py=replay_src(seq))
     if len(bad) > len(items):
         ctx.notes.append('%d distinct (call, outcome) violations, %d reported' % (len(bad), len(items)))
-    for label in ('sv-file', 'va-key', 'pair-shared-file', 'shared-file', 'overflow'):
+    for label in ('sv-file', 'va-key', 'pair-shared-file', 'shared-file', 'overflow', 'flag-forms'):
         for lb, seq, outs, sizes in results:
             if lb == label and len(seq) > 1:
                 ctx.sample({'kind': label, 'history': [list(c) for c in seq][:6], 'outcomes': outs[:6],
